@@ -11,6 +11,12 @@ CHECKS = {
          NOTE + "blake3/base64 crates tied to the Gallina implementations by correspondence only; no collision-freeness assumed.", "DESIGN.md 6 C06"),
  "C09": ("Coq theorems: every record codec generated from the Rust serialize/deserialize call sequences round-trips; file and xorb records (all flag combinations, any number of entries) and whole sections parse back to exactly the records that were serialised, for any number of records. Tie: codecs, tags, versions and the statements of the interpolation search regenerated/pinned from source; correspondence of serialised bytes, size accounting, scans and every lookup on generated shards (clustered/dense/extreme/prefix-sharing keys, tables above the read window); direct oracle: stored keys found exactly, absent keys not found, three readers agree, totals exact. Search correctness for every probe oracle is modelled and exercised; its Coq proof is not yet part of this revision (stated in DESIGN.md).",
          NOTE + "BTreeMap/HashMap as association lists; f64 probe replaced by exact rationals in the executable model (results do not depend on the probe).", "DESIGN.md 6 C09"),
+ "C05": ("Coq theorems: the direct dedup query is truthful for every block, hint and query sequence (1<=n<=|qs|, range inside the named xorb, hashes equal directly or under the HMAC key, byte count = sum of lengths); the byte-level query the correspondence executes equals the record-level one whenever the hinted position holds a serialised well-formed block; the in-memory index is truthful whatever its hash map points at. Tie: correspondence of in-memory, on-disk and keyed-export answers (membership in the model's candidate set where the sort is unstable) + truthfulness oracle on every answer, incl. real ShardFileManager histories (add/flush/keyed export/re-open/consolidate).",
+         NOTE + "manager bookkeeping (collections, u16 narrowing, mtime order) covered by the oracle and by 'every answer comes from the direct query'.", "DESIGN.md 6 C05"),
+ "C10": ("Coq theorems on the record-level union/difference walks: key set of the union = union of key sets (files and xorbs); no record is invented (every output record is an input record or the stated merge of two same-key records); difference returns only records of the second input (the 'not in the first' half needs sortedness and is not proved in this revision). Tie: output bytes of shard_set_union/shard_set_difference and of MDBInMemoryShard::union/difference compared with the model on generated pairs (all 4x4 flag pairs, prefix collisions, empty/identical/subsumed); oracle re-reads every output (key sets, records, lookup tables, totals, size accounting) and checks directory consolidation on real directories.",
+         NOTE + "directory consolidation checked by oracle only.", "DESIGN.md 6 C10"),
+ "C18": ("Coq theorems: keyed blocks keep headers/lengths/offsets and replace every chunk hash by keyed(key,h) (identity for the zero key, HMAC otherwise); the exported CAS section scans back to exactly the keyed blocks; no raw chunk hash survives unless an explicit HMAC coincidence is exhibited; unkeyed dedup queries against the keyed block answer exactly as against the original or an explicit HMAC collision is exhibited; expiry rules (regenerated from the source) for all orderings of now/expiry/grace. Tie: exported bytes for all 8 include-flag triples x keys compared byte-for-byte with the model (timestamps zeroed); oracle characterises every export, compares manager answers original vs export, and checks expiry on shards with explicit footer times.",
+         NOTE + "wall clock outside the model; manager-level equivalence by oracle.", "DESIGN.md 6 C18"),
 }
 ALL = ["C%02d" % i for i in range(1, 21)]
 def main():
